@@ -181,7 +181,30 @@ def evaluate(ast, src, vocab, db):
     except Exception as e:
         return 'strict parse raised %s: %s' % (type(e).__name__, str(e)[:200]), exp
     got = D.normalize_parsed(nl)
-    return D.same(exp, got), exp
+    mm = D.same(exp, got)
+    if mm is None:
+        mm = blanks_before_closing_brace_kept(nl, src)
+    return mm, exp
+
+
+def blanks_before_closing_brace_kept(nl, src):
+    """The normal form drops whitespace-only text, so a blank written between the last construct of a {group} and its
+    closing brace would go unnoticed if the parser lost it (seed C02-n): the children of every brace group must
+    reach from the opening to the closing brace."""
+    from ..mon import canon
+    for n in canon.walk(nl):
+        if canon.kind(n) != 'group' or tuple(getattr(n, 'delimiters', ()) or ()) != ('{', '}'):
+            continue
+        ch = [c for c in (n.nodelist or []) if c is not None]
+        if not ch or not all(isinstance(c.pos, int) and isinstance(c.pos_end, int) for c in ch):
+            continue
+        if not (isinstance(n.pos, int) and isinstance(n.pos_end, int)) or src[n.pos_end - 1:n.pos_end] != '}':
+            continue
+        if ch[0].pos != n.pos + 1 or ch[-1].pos_end != n.pos_end - 1:
+            return 'group %r: its children cover %d..%d, the written content is %d..%d (%r is not represented)' % (
+                src[n.pos:n.pos_end], ch[0].pos, ch[-1].pos_end, n.pos + 1, n.pos_end - 1,
+                src[n.pos + 1:ch[0].pos] + src[ch[-1].pos_end:n.pos_end - 1])
+    return None
 
 
 def check_case(case, rec):
